@@ -24,6 +24,11 @@ def exercise(gw, name):
     ch.close()
     def f(channel, a): channel.send(a + 1)
     if gw.remote_exec(f, a=1).receive(10) != 2: bad.append(f"{name}: remote_exec(function) failed")
+    # "behaves like an import-bootstrapped worker": it runs the execution model its spec asked for, with the main-thread guarantee that goes with it
+    want = gw.spec.execmodel or "thread"
+    got = gw.remote_exec("import threading; channel.send((channel.gateway.execmodel.backend, threading.current_thread() is threading.main_thread()))").receive(10)
+    if got[0] != want or (want == "main_thread_only" and not got[1]):
+        bad.append(f"{name}: the worker runs execmodel {got[0]!r} (in main thread: {got[1]}), its spec asked for {want!r}")
 n = 0
 group = execnet.Group()
 try:
